@@ -151,14 +151,28 @@ def worker_main(fn):
 # --------------------------------------------------------------------------- coq
 
 class CoqLock:
+    """One lock on /verif/.build.lock for everything that writes under coq/ (regenerated Gen.v files,
+    make, the forced re-check of Props.v).  Re-entrant within a process: check.py holds it across
+    regeneration + re-check so that a concurrent run of another check (or of the same check on another
+    tree) cannot swap a Gen.v in between."""
+    _depth = 0
+    _file = None
+
     def __enter__(self):
-        self.f = open(os.path.join(ROOT, ".build.lock"), "w")
-        fcntl.flock(self.f, fcntl.LOCK_EX)
+        cls = CoqLock
+        if cls._depth == 0:
+            cls._file = open(os.path.join(ROOT, ".build.lock"), "w")
+            fcntl.flock(cls._file, fcntl.LOCK_EX)
+        cls._depth += 1
         return self
 
     def __exit__(self, *a):
-        fcntl.flock(self.f, fcntl.LOCK_UN)
-        self.f.close()
+        cls = CoqLock
+        cls._depth -= 1
+        if cls._depth == 0:
+            fcntl.flock(cls._file, fcntl.LOCK_UN)
+            cls._file.close()
+            cls._file = None
 
 
 def coq_project_files():
